@@ -158,8 +158,10 @@ PROPS = {
                   "C11_pending_message_has_a_submitter", "C11_owed_poller_is_resumable_or_a_waker_is_running"],
         rule="one splitmix64 stream per case: one poller thread calling Ring::poll(None) 1..3 times and 1..3 waker "
              "threads each calling SubmissionQueue::wake 1..2 times, on a ring of the simulated kernel in one of the "
-             "three ring modes (default, single issuer, kernel-thread flag) with random 32-bit start counters, run "
-             "one at a time under the baton scheduler with a random schedule (preemption probability 5..50% at "
+             "three ring modes (default, single issuer, kernel-thread flag) with random 32-bit start counters and a "
+             "submission queue of 2 or 8 entries holding 0, cap-1 or cap unrelated queued operations (never "
+             "completing) at the start, so that wake() finds the queue (nearly) full and has to enter and retry, "
+             "run one at a time under the baton scheduler with a random schedule (preemption probability 5..50% at "
              "every hook-B scheduling point: the PollingState swap / fetch_or, loads of head/tail/flags, submission "
              "lock, slot fill, tail store, CQ head store, try_lock of wake_blocked_futures) and the simulator's "
              "blocking enter; the executed interleaving (incl. the scheduler's report that the blocked poller can "
@@ -175,7 +177,11 @@ PROPS = {
                      "themselves are not verified",
                      "schedules the scheduler can produce: a blocked poller is resumed only when something arrived, "
                      "'stuck' is reported only when both queues are empty and every waker has finished (ev_ok)",
-                     "liveness is reduced to safety plus 'a waker inside its call eventually runs'"],
+                     "liveness is reduced to safety plus 'a waker inside its call eventually runs': a waker retrying "
+                     "after an add that failed on a full queue counts as inside its call; termination of the retry "
+                     "loop of Submissions::wake is not claimed",
+                     "entries queued by others are abstracted to a count at the front of the queue (they are "
+                     "consumed first and post no completion)"],
         trusted=["simulated kernel harness/src/simk.rs (blocking enter, MSG_RING, SQPOLL consumption)",
                  "baton scheduler harness/src/sched.rs (replays are exact: the model reports the scheduling point it "
                  "expects at every step and it is diffed; blocked/stuck markers)",
